@@ -424,12 +424,14 @@ pub struct Session<'c, 'm> {
     /// whose PEC is wrong (C02: such a packet must not change any later output)
     pub twin: &'c mut MCTPSMBusContext<'m>,
     pub twin_on: bool,
+    /// compare decode / probe answers with the alternate context (off in C02's strata, where XBad means twin divergence)
+    pub alt_on: bool,
     pub out: String,
     pub nops: usize,
     pub nvend: usize,
 }
 
-fn run_op(ctx: &mut MCTPSMBusContext, alt: &MCTPSMBusContext, op: &Op) -> Obs {
+fn run_op(ctx: &mut MCTPSMBusContext, alt: Option<&MCTPSMBusContext>, op: &Op) -> Obs {
     match op {
         Op::Process(pkt, buf0) => {
             let mut buf = buf0.clone();
@@ -449,13 +451,17 @@ fn run_op(ctx: &mut MCTPSMBusContext, alt: &MCTPSMBusContext, op: &Op) -> Obs {
         }
         Op::Decode(pkt) => {
             let a = decode_obs(ctx, pkt);
-            let b = decode_obs(alt, pkt);
-            if a == b { a } else { Obs::Bad }
+            match alt {
+                Some(alt) if decode_obs(alt, pkt) != a => Obs::Bad,
+                _ => a,
+            }
         }
         Op::GetLength(pkt) => {
             let a = len_obs(ctx, pkt);
-            let b = len_obs(alt, pkt);
-            if a == b { a } else { Obs::Bad }
+            match alt {
+                Some(alt) if len_obs(alt, pkt) != a => Obs::Bad,
+                _ => a,
+            }
         }
         Op::SetEid(req, e) => {
             if *req {
@@ -488,11 +494,12 @@ impl<'c, 'm> Session<'c, 'm> {
     }
 
     pub fn op(&mut self, op: Op) -> Obs {
-        let mut obs = run_op(self.ctx, self.alt, &op);
+        let alt = if self.alt_on { Some(self.alt) } else { None };
+        let mut obs = run_op(self.ctx, alt, &op);
         if self.twin_on {
             let skip = matches!(&op, Op::Process(p, _) if pec_is_bad(p));
             if !skip {
-                let t = run_op(self.twin, self.alt, &op);
+                let t = run_op(self.twin, None, &op);
                 let te = (self.twin.get_request().get_eid(), self.twin.get_response().get_eid());
                 if t != obs || te != self.eids() {
                     obs = Obs::Bad;
@@ -575,7 +582,7 @@ pub fn with_session<F: FnOnce(&mut Session)>(id: u64, stratum: &str, cfg: &Cfg, 
         }
     }
     let mut twin = MCTPSMBusContext::new(cfg.addr, &cfg.msg_types, &vids);
-    let mut s = Session { ctx: &mut ctx, alt: &alt, twin: &mut twin, twin_on: false, out: String::new(), nops: 0, nvend: cfg.vendor_ids.len() };
+    let mut s = Session { ctx: &mut ctx, alt: &alt, twin: &mut twin, twin_on: false, alt_on: true, out: String::new(), nops: 0, nvend: cfg.vendor_ids.len() };
     let _ = writeln!(s.out, "C {} {}", id, stratum);
     let _ = write!(s.out, "G {} {} {}", cfg.addr, hex(&cfg.msg_types), cfg.vendor_ids.len());
     for (f, d, n) in &cfg.vendor_ids {
